@@ -60,4 +60,29 @@ REGISTRY = {
         "level_note": "Trusted: Coq kernel/vm_compute, hand-written model and specification machine (model checked by correspondence), harness; flume FIFO assumed. Known finding F1 is reported as KNOWN-FINDING only when the faithful model reproduces it exactly. No axioms.",
         "explanation": "C17_progress_outside_known_class proved for all n and arrival sequences; C17_progress_refuted is the F1 witness.",
     },
+    "C14": {
+        "corr": "C14",
+        "trusted": [
+            "modelled: SessionWindowManager::process, ProcessingTimeWindowManager::process and the keyed WindowOperator, with the reading of Instant::now() as an explicit input (hook: renoir::verif::now mock clock, add-only cfg lines at the two call sites)",
+            "assumed: Instant::now() is monotone (used by the processing-time theorems only); HashMap iteration order abstracted",
+        ],
+        "assumptions": ["0 < slide <= size for processing-time windows; gap > 0"],
+        "level_text": "Proof: session and processing-time window managers are modelled with the clock as an input; partition (session, tumbling) and cover (sliding: 1..ceil(size/slide)) theorems are proved for every clock sequence, every input, every accumulator, plus the per-key lifting. Tied to the code by running the real keyed window chain under a mocked clock (bursts, long pauses, readings on boundaries) and comparing inside Coq.",
+        "level_note": "Trusted: Coq kernel/vm_compute, hand-written model (checked by correspondence), harness, mock-clock hook. The real wall clock is replaced by a scripted one; monotonicity of Instant::now() is assumed. No axioms.",
+        "explanation": "C14_* proved for all clocks/inputs; correspondence with mocked clock.",
+    },
+    "C07": {
+        "corr": "C07",
+        "trusted": [
+            "modelled: Fold::next, KeyedFold::next, keyed RichMap, KeyBy, and the consumer-side Start; fold/fold_assoc/group_by_fold/reduce/sum/... are compositions of these (stream API glue read from src/operator/mod.rs, compared through real chains)",
+            "HashMap drain order abstracted (results of one round compared as multisets per key)",
+        ],
+        "assumptions": [
+            "user functions associative and commutative for the order/partition-independence statements; init neutral for the global function in two-phase forms (documented contract, N2)",
+            "arrival interleavings respect round synchronisation (theorem of the loop protocol, C10)",
+        ],
+        "level_text": "Proof: Fold and KeyedFold are modelled as machines and proved to output per round exactly the sequential fold (per key), with max timestamp, nothing carried over; order and partition independence for commutative monoids; and the end-to-end two-phase theorem over the real Start model for every partition and arrival interleaving. Tied to the code by driving the real Start->Fold / Start->KeyBy->KeyedFold / second phase of group_by_fold chains with 1..5 hand-driven upstream replicas.",
+        "level_note": "Trusted: Coq kernel/vm_compute, hand-written models (checked by correspondence), harness; user closures are universally quantified in the theorems and instantiated with collect/sum in the correspondence. No axioms.",
+        "explanation": "C07_* proved; correspondence over real chains behind the real Start.",
+    },
 }
